@@ -32,4 +32,4 @@ macro_rules! registry {
     };
 }
 
-registry!(c01, c02, c04, c05, c06, c07, c08, c09, c10, c11, c12, c13, c14, c15, c16, c17, c18, c19);
+registry!(c01, c02, c03, c04, c05, c06, c07, c08, c09, c10, c11, c12, c13, c14, c15, c16, c17, c18, c19);
